@@ -74,21 +74,47 @@ fn tagname(name: &QualName) -> LocalName {
     name.local.clone()
 }
 
+fn is_void_html_element(local: &LocalName) -> bool {
+    matches!(
+        *local,
+        local_name!("area")
+            | local_name!("base")
+            | local_name!("basefont")
+            | local_name!("bgsound")
+            | local_name!("br")
+            | local_name!("col")
+            | local_name!("embed")
+            | local_name!("frame")
+            | local_name!("hr")
+            | local_name!("img")
+            | local_name!("input")
+            | local_name!("keygen")
+            | local_name!("link")
+            | local_name!("meta")
+            | local_name!("param")
+            | local_name!("source")
+            | local_name!("track")
+            | local_name!("wbr")
+    )
+}
+
 impl<Wr: Write> HtmlSerializer<Wr> {
     pub fn new(writer: Wr, opts: SerializeOpts) -> Self {
-        let html_name = match opts.traversal_scope {
-            TraversalScope::IncludeNode | TraversalScope::ChildrenOnly(None) => None,
-            // The named parent only counts as an HTML element (raw-text rules) in the HTML
-            // namespace, exactly as in start_elem().
-            TraversalScope::ChildrenOnly(Some(ref n)) if n.ns == ns!(html) => Some(tagname(n)),
-            TraversalScope::ChildrenOnly(Some(_)) => None,
+        // The named parent is treated exactly as start_elem() treats an element: it only counts
+        // as an HTML element (raw-text rules, void elements) in the HTML namespace.
+        let (html_name, ignore_children) = match opts.traversal_scope {
+            TraversalScope::IncludeNode | TraversalScope::ChildrenOnly(None) => (None, false),
+            TraversalScope::ChildrenOnly(Some(ref n)) if n.ns == ns!(html) => {
+                (Some(tagname(n)), is_void_html_element(&n.local))
+            },
+            TraversalScope::ChildrenOnly(Some(_)) => (None, false),
         };
         HtmlSerializer {
             writer,
             opts,
             stack: vec![ElemInfo {
                 html_name,
-                ignore_children: false,
+                ignore_children,
             }],
         }
     }
@@ -200,28 +226,7 @@ impl<Wr: Write> Serializer for HtmlSerializer<Wr> {
         }
         self.writer.write_all(b">")?;
 
-        let ignore_children = name.ns == ns!(html)
-            && matches!(
-                name.local,
-                local_name!("area")
-                    | local_name!("base")
-                    | local_name!("basefont")
-                    | local_name!("bgsound")
-                    | local_name!("br")
-                    | local_name!("col")
-                    | local_name!("embed")
-                    | local_name!("frame")
-                    | local_name!("hr")
-                    | local_name!("img")
-                    | local_name!("input")
-                    | local_name!("keygen")
-                    | local_name!("link")
-                    | local_name!("meta")
-                    | local_name!("param")
-                    | local_name!("source")
-                    | local_name!("track")
-                    | local_name!("wbr")
-            );
+        let ignore_children = name.ns == ns!(html) && is_void_html_element(&name.local);
 
         self.stack.push(ElemInfo {
             html_name,
